@@ -12,6 +12,7 @@ import ConfModel.Lemmas.ReportMsg
 import ConfModel.Model.FeedbackLineRepair
 import ConfModel.Model.FeedbackLabel
 import ConfModel.Model.Cli
+import ConfModel.Model.SrvFeedback
 import ConfModel.Props.C10
 import ConfModel.Props.C11
 namespace ConfModel.Props.C04
@@ -1394,5 +1395,62 @@ example : Cli.run { mode := "server", command := ["s"], maxServers := 7, maxServ
 
 
 end CommandLine
+
+/-! ### server mode: feedback of the reference CLIENT (ops srvloop / srvcli) -/
+section ServerMode
+open ConfModel.SrvFeedback
+
+/-- **Symmetry of the two reference peers.**  In mode SERVER (`isReferenceClient = true`) a response of
+the reference client that carries the feedback message `m` leaves `testResults` in exactly the state
+in which a client-mode run is after the same answer and a feedback line `m` of the reference SERVER for
+that case: the same `recordSideband` call, hence (the report being a function of that state) the same
+failure. -/
+theorem client_feedback_as_server_feedback (mk : Marks) (r : SrvFeedback.Results) (p : Resp) (m : String)
+    (h : p.ans.hasResponse = true) :
+    callback mk true r { p with feedback := [m] }
+      = serverNote (callback mk false r { p with feedback := [] }) p.name m := by
+  simp [callback, serverNote, recordAll, h]
+
+example : (callback ⟨fun _ => false, fun _ => false⟩ true ⟨[], []⟩ ⟨"S/c0", .pass, ["invalid key"]⟩).sb
+    = [("S/c0", "invalid key")] := by decide
+
+/-- … and only for the reference client: feedback in the answers of any other client is not recorded
+(`isReferenceClient = false`), as is feedback beside an error result. -/
+theorem client_feedback_recorded_iff (mk : Marks) (r : SrvFeedback.Results) (p : Resp) (isRef : Bool) :
+    (callback mk isRef r p).sb =
+      if isRef && p.ans.hasResponse then recordAll r.sb p.name p.feedback else r.sb := by
+  simp [callback]
+
+/-- **Feedback of the reference client fails the case and the run** (one answered case, any number of
+messages ≥ 1, any text): an unmarked case whose result matches the expectation (`Ans.pass`) is
+reported failed, named on a FAILED line, and `report` returns false. -/
+theorem client_feedback_fails (mk : Marks) (n m : String) (ms : List String)
+    (hf : mk.failing n = false) (hk : mk.flaky n = false) :
+    (srvReport mk true [⟨n, .pass, m :: ms⟩]).ok = false ∧
+    (srvReport mk true [⟨n, .pass, m :: ms⟩]).failedNames = [n] ∧
+    (srvReport mk true [⟨n, .pass, []⟩]).ok = true ∧
+    (srvReport mk false [⟨n, .pass, m :: ms⟩]).ok = true := by
+  have hsb : ∀ (ms : List String) (v : String), ∃ x,
+      ms.foldl (fun sb m => recordSideband sb n m) [(n, v)] = [(n, x)] := by
+    intro ms
+    induction ms with
+    | nil => intro v; exact ⟨v, rfl⟩
+    | cons a t ih => intro v; simpa [recordSideband, put] using ih a
+  obtain ⟨x, hx⟩ := hsb ms m
+  have hx' : recordAll [] n (m :: ms) = [(n, x)] := by
+    simpa [recordAll, recordSideband, put] using hx
+  have h0 : recordAll ([] : Sideband) n [] = [] := rfl
+  simp [srvReport, SrvFeedback.runBatch, callback, hx', h0, report, reportWith, processSideband, mergeOne, setOutcome,
+    put, get?, failOfAns, Ans.hasResponse, count, classify, expectError, hf, hk, namesOf,
+    isFailedClass]
+
+example : (srvReport ⟨fun _ => false, fun _ => false⟩ true
+    [⟨"S/c0", .pass, []⟩, ⟨"S/c1", .pass, ["connect error JSON: invalid key \"zz\""]⟩]).ok = false := by decide
+example : (srvReport ⟨fun _ => false, fun _ => false⟩ true
+    [⟨"S/c0", .pass, []⟩, ⟨"S/c1", .pass, ["x"]⟩]).failedNames = ["S/c1"] := by decide
+example : (fun (_ : String) => false) "S/c1" = false ∧
+    (srvReport ⟨fun _ => false, fun _ => false⟩ true [⟨"S/c1", .pass, ["a", "b"]⟩]).failedNames = ["S/c1"] := by decide
+
+end ServerMode
 
 end ConfModel.Props.C04
